@@ -644,3 +644,84 @@ def check_C10(chk):
                         "the driver measures the elapsed time as a plausibility oracle ('at least the requested time to millisecond granularity' is read as floor(d / 1 ms))",
                         "poll(2) semantics (returns early on POLLIN / hang-up) are kernel behaviour"]
     finish_proof(chk, proof_ok, fails, bad)
+
+
+# ------------------------------------------------------------------ C05 (shm driver)
+def check_C05(chk):
+    thorough = chk.tier == "thorough"
+    rng = random.Random(chk.seed)
+    proof_ok = C.proof_stage(chk, "C05")
+    bins = build_all(chk, ["default", "memfd", "inprocess"])
+    if not all(bins.values()):
+        return
+    base = [0, 1, 2, 4095, 4096, 4097, 8191, 8192, 8193]
+    lens = base + [rng.randrange(0, 70000) for _ in range(10)] + ([1 << 20, 32 << 20, (32 << 20) - 1] if thorough else [1 << 20])
+    cases, nid = [], itertools.count(1)
+    for L in lens:
+        for nreg in ((1, 2, 8) if L < 100000 else (1,)):
+            for clones in (0, 1, 3):
+                cases.append({"id": next(nid), "len": L, "nreg": nreg, "clones": clones, "fill": (L + nreg + clones) % 2, "fork": (L + clones) % 3 == 0 and 1 or 0,
+                              "pad": 0 if (nreg + clones) % 2 else 6000})
+    lines = ["case id=%d len=%d nreg=%d clones=%d fill=%d fork=%d pad=%d" % (c["id"], c["len"], c["nreg"], c["clones"], c["fill"], c["fork"], c["pad"]) for c in cases]
+    fails, ntr = [], 0
+    per_build = {}
+    for fl in ("default", "memfd", "inprocess"):
+        cl = [l for l, c in zip(lines, cases) if not (fl == "inprocess" and c["fork"])]
+        recs, trace, rc, err = C.run_harness(bins[fl], "shm", ["zero"] + cl, env_extra={"VSHIM_SNDBUF": 4096} if fl != "inprocess" else {}, shim=fl != "inprocess", timeout=900)
+        by = {r["id"]: r for r in recs if r.get("kind") == "shmcase"}
+        zero = [r for r in recs if r.get("kind") == "shm"]
+        per_build[fl] = len(by)
+        if fl != "inprocess" and (rc != 0 or len(zero) < 14):
+            chk.failing_input("zero-length / odd-length regions: the scenario did not complete (rc=%s): %s" % (rc, err[-300:]), {"build": fl}, key="%s:zero-abort" % fl)
+        for z in zero:
+            if not z["ok"]:
+                fails.append((fl, None, "zero/odd-length region: %s (%s)" % (z["what"], z["extra"])))
+        for c in cases:
+            if fl == "inprocess" and c["fork"]:
+                continue
+            r = by.get(c["id"])
+            why = None
+            if r is None:
+                why = "no record (the process died?) %s" % err[-200:]
+            elif not r["local_ok"]:
+                why = "a region (or one of its clones) does not read back the bytes it was created from in the creating process"
+            elif not r["arrived_ok"]:
+                why = "regions did not arrive in order with identical contents (received lengths %s)" % r["lens"]
+            elif not c["fork"] and r["lens"] != [c["len"] + i for i in range(c["nreg"])]:
+                why = "received lengths %s differ from the sent ones" % r["lens"]
+            elif r["maps_after"] != r["maps_before"] or r["fds_after"] != r["fds_before"]:
+                why = "mappings/descriptors not released: maps %s->%s fds %s->%s" % (r["maps_before"], r["maps_after"], r["fds_before"], r["fds_after"])
+            elif fl != "inprocess" and trace:
+                seg = C.ops_between(trace, "shm %d" % c["id"], "endshm %d" % c["id"]) or []
+                # ipc level: an empty region has no backing object at all (Shm.ipc_from_bytes [] = None)
+                want = {c["len"] + i for i in range(c["nreg"])} - {0}
+                ft = [q["len"] for q in seg if q["call"] == "ftruncate"]
+                mm = [q["len"] for q in seg if q["call"] == "mmap"]
+                ntr += 1
+                if sorted(ft) != sorted(want) and fl == "default":
+                    why = "backing objects sized %s instead of %s" % (sorted(ft), sorted(want))
+                elif any(m not in want for m in mm):
+                    why = "a mapping of %s bytes was made for regions of %s bytes (model: create/clone map the region's length, a receiver maps the fstat size)" % (
+                        [m for m in mm if m not in want][:3], sorted(want))
+                elif 0 in mm:
+                    why = "mmap of length 0 attempted"
+            if why:
+                fails.append((fl, c, why))
+    for fl, c, why in fails[:8]:
+        chk.failing_input(why, {"build": fl, "case": c}, key="%s:%s" % (fl, c and "len=%d nreg=%d clones=%d fill=%d fork=%d pad=%d" % (c["len"], c["nreg"], c["clones"], c["fill"], c["fork"], c["pad"])))
+    cov = chk.coverage
+    cov["evaluations"] = sum(per_build.values())
+    cov["traces_validated_against_impl"] = ntr
+    cov["distinct_nontrivial"] = len({(c["len"], c["nreg"], c["clones"], c["fork"]) for c in cases if c["len"] % 4096 or c["len"] == 0})
+    cov["correspondence_mismatches"] = 0
+    cov["rule"] = ("shm driver: lengths 0, 1, 2, page size +-1, 2 pages +-1, random lengths below 70000, 1 MiB (thorough: 32 MiB) x 1 / 2 / 8 regions per message (region i has "
+                   "length len+i and its own contents) x 0 / 1 / 3 clone generations (the originals dropped) x from_bytes / from_byte x same process / forked receiver "
+                   "(sender copies and the carrying channel dropped before the child reads) x small / multi-packet carrier, on the shm_open build, the memfd build and the "
+                   "in-process build; zero- and odd-length regions at platform and ipc level; ftruncate and mmap lengths in the trace must be the ones Shm.v prescribes; "
+                   "non-trivial = length 0 or not a multiple of the page size")
+    cov["input_distribution"] = {"per_build": per_build, "lengths": sorted(set(lens))[:30]}
+    for c in cases[:3]:
+        chk.sample(c)
+    chk.assumptions += ["ftruncate(n) gives an object whose fstat size is exactly n and whose first n bytes are what was written through any mapping (kernel / tmpfs semantics)",
+                        "memfd_create is issued as a raw system call and is invisible to the shim (that build is observed through /proc/self/fd, /proc/self/maps and mmap lengths)"]
+    finish_proof(chk, proof_ok, fails, [])
